@@ -651,9 +651,80 @@ def _inline_expressions(fn, scope, rounds=4):
     return fn
 
 
+def _comprehensions_to_loops(fn, scope):
+    """`x = [e for t in it]` (also nested, also `return [...]`) whose element
+    calls a helper that is not a single expression becomes an append loop, so
+    that the helper can be inlined as statements"""
+    k = [0]
+
+    def needs(e):
+        hit = _find_helper_call(e, scope, {}, conditional=True)
+        return hit is not None and _as_expression(hit[1]) is None
+
+    def expand(comp, target_name):
+        """statements filling target_name from the list comprehension"""
+        out = [ast.Assign([ast.Name(target_name, ast.Store())],
+                          ast.List([], ast.Load()))]
+        body_holder = out
+        cur = None
+        for g in comp.generators:
+            loop = ast.For(g.target, g.iter, [], [])
+            (cur.body if cur is not None else out).append(loop)
+            cur = loop
+            for c in g.ifs:
+                iff = ast.If(c, [], [])
+                cur.body.append(iff)
+                cur = iff
+        elt = comp.elt
+        pre = []
+        if isinstance(elt, ast.ListComp) and needs(elt):
+            k[0] += 1
+            inner = f'c{k[0]}_'
+            pre = expand(elt, inner)
+            elt = ast.Name(inner, ast.Load())
+        cur.body += pre + [ast.Expr(ast.Call(
+            ast.Attribute(ast.Name(target_name, ast.Load()), 'append',
+                          ast.Load()), [elt], []))]
+        return out
+    for owner, fld, body in list(_blocks_of(fn)):
+        i = 0
+        while i < len(body):
+            st = body[i]
+            comp = None
+            if isinstance(st, ast.Assign) and len(st.targets) == 1 and \
+                    isinstance(st.targets[0], ast.Name) and \
+                    isinstance(st.value, ast.ListComp):
+                comp, name = st.value, st.targets[0].id
+            elif isinstance(st, ast.Return) and isinstance(
+                    st.value, ast.ListComp):
+                k[0] += 1
+                comp, name = st.value, f'c{k[0]}_'
+            if comp is not None and needs(comp):
+                new = expand(comp, name)
+                if isinstance(st, ast.Return):
+                    new.append(ast.Return(ast.Name(name, ast.Load())))
+                body[i:i + 1] = new
+                i += len(new)
+                continue
+            i += 1
+    return fn
+
+
+def _blocks_of(node):
+    for fld in ('body', 'orelse', 'finalbody'):
+        b = getattr(node, fld, None)
+        if isinstance(b, list) and b and isinstance(b[0], ast.stmt):
+            yield node, fld, b
+            for st in list(b):
+                yield from _blocks_of(st)
+    for h in getattr(node, 'handlers', []) or []:
+        yield from _blocks_of(h)
+
+
 def inline_helpers(fn, scope, depth=4):
     """replace calls of new helpers by their bodies (in place)"""
     cnt = _Counter()
+    _comprehensions_to_loops(fn, scope)
     _inline_expressions(fn, scope)
 
     def block(body, local_defs):
@@ -823,6 +894,20 @@ class _ConstFold(ast.NodeTransformer):
         if isinstance(n.test, ast.Constant):
             arm = n.body if n.test.value else n.orelse
             return arm or ast.Pass()
+        return n
+
+    def visit_ListComp(self, n):
+        self.generic_visit(n)
+        if len(n.generators) == 1 and not n.generators[0].ifs and \
+                isinstance(n.generators[0].iter, (ast.Tuple, ast.List)) and \
+                isinstance(n.generators[0].target, ast.Name) and \
+                len(n.generators[0].iter.elts) <= 16 and all(
+                    is_pure(x) and not isinstance(x, ast.Starred)
+                    for x in n.generators[0].iter.elts) and is_pure(n.elt):
+            nm = n.generators[0].target.id
+            return ast.copy_location(ast.List(
+                [subst(copy.deepcopy(n.elt), {nm: x})
+                 for x in n.generators[0].iter.elts], ast.Load()), n)
         return n
 
     def visit_JoinedStr(self, n):
@@ -1342,7 +1427,7 @@ def forward_substitute(fn):
             x.target, ast.Name) and x.target.id == name
             for st in stmts for x in ast.walk(st))
 
-    def first_evaluated(holder, nm):
+    def first_evaluated(holder, nm, val):
         """the one load of nm is the first thing the expression evaluates
         that is not a constant or a plain local (evaluation order is left to
         right, operands before the operation), in an unconditional position"""
@@ -1371,15 +1456,20 @@ def forward_substitute(fn):
                         walk(ch)
             order.append(e)
         walk(holder)
+        earlier = set()
         for e in order:
             if isinstance(e, ast.Name) and e.id == nm and \
                     isinstance(e.ctx, ast.Load):
-                return True
-            if isinstance(e, (ast.Constant, ast.Name)):
+                # what was read before the call must be out of its reach
+                return not earlier or not _touches(ast.Expr(val), earlier)
+            if isinstance(e, (ast.Constant, ast.Name, ast.Slice, ast.Tuple)):
                 continue
-            if isinstance(e, ast.Attribute) and isinstance(
-                    e.value, ast.Name) and e.value.id in (
-                    'np', 'numpy', 'math'):
+            if isinstance(e, (ast.Attribute, ast.Subscript)):
+                p_ = _path(e)
+                if p_ is None:
+                    return False
+                if p_[0] not in ('np', 'numpy', 'math'):
+                    earlier.add(tuple(p_))
                 continue
             return False
         return False
@@ -1428,7 +1518,7 @@ def forward_substitute(fn):
                 holder = st.iter
             if holder is None or _loads_of(nm, [ast.Expr(holder)]) != 1:
                 return False
-            return first_evaluated(holder, nm)
+            return first_evaluated(holder, nm, val)
         n_use = _path_uses(nm, rest)
         if _loads_of(nm, rest) == 0:
             return True           # never read on this path: nothing to keep
@@ -1498,6 +1588,18 @@ def forward_substitute(fn):
                 # first touched by a top-level binding; reads in nested
                 # statements come later in the pass
                 local.add(nm)
+        # names local to a pass of a nested loop are local here as well
+        for j, st in enumerate(loop.body):
+            if isinstance(st, ast.For):
+                after_f = loop.body[j + 1:] + list(after)
+                inner = _names_stored(ast.Module(st.body, [])) - \
+                    loop_vars(st, after_f)
+                outside = loop.body[:j] + loop.body[j + 1:]
+                for nm in inner:
+                    if not _loads_of(nm, outside) and \
+                            nm not in _names_stored(ast.Module(outside, [])) \
+                            and not _loads_of(nm, after):
+                        local.add(nm)
         return (stored - local) | carried
 
     def block(body, env, real):
